@@ -87,7 +87,7 @@ def job_mask(tier, seed):
     out = dict(tot, solver_s=round(time.time() - t0, 2), reached=asserting > 0, validated=val, samples=samples,
                extra={"functions_interpreted": srcs, "address_sizes_bytes": [4] if tier == "quick" else [4, 16], "wall_s": round(time.time() - t0, 1)})
     if cands:
-        out.update(verdict="CANDIDATE", candidates=cands[:3], detail="%d violating path(s)" % len(cands))
+        out.update(verdict="CANDIDATE", candidates=cands[:8], detail="%d violating path(s)" % len(cands))
     else:
         out.update(verdict="HOLDS", detail="%d paths discharged" % asserting)
     return out
